@@ -125,7 +125,8 @@ func cmdLimits(args []string) error {
 				if chunked {
 					rd = onlyReader{bytes.NewReader(body)}
 				}
-				req := httptest.NewRequest("POST", "http://ex/s", rd)
+				// the route also serves the paths below it: the route's limit applies there too
+				req := httptest.NewRequest("POST", "http://ex"+pick(r, []string{"/s", "/s", "/s/sub", "/s/a/b"}), rd)
 				if chunked {
 					req.ContentLength = -1
 				}
